@@ -29,8 +29,8 @@ def float(x):  # noqa: A001 — overflow-safe: a huge exact rational becomes ±i
 
 
 ID = "C04"
-LEAN_TARGETS = ["Strengths.Props.C04"]
-PROP_FILES = ["Strengths/Props/C04.lean"]
+LEAN_TARGETS = ["Strengths.Props.C04", "Strengths.Props.C04Marshal"]
+PROP_FILES = ["Strengths/Props/C04.lean", "Strengths/Props/C04Marshal.lean"]
 GEN_GROUPS = ["Units", "IndexPy", "EngineCpp", "KineticsPy"]
 RULE = ("pairs (d, rescale σ d): d a random script description (systems as in C01, units declared / inherited / 'default' at every "
         "level), σ a random choice per nesting level of {keep, declare a new system drawn from all 11x10x10, drop the declaration} "
@@ -602,6 +602,11 @@ def dxdtf_stream(ctx, n):
 def run(ctx):
     rng = ctx.rng
     C1.out_of_time(ctx)          # start the harness clock
+    ctx.notes.append("marshalled engine, any engine units system: Props/C04Marshal.lean (marshal_euler_step_units_grid/_graph, "
+                     "marshal_euler_step_vs_si_grid/_graph, marshal_euler_traj_closed_form_grid/_graph, "
+                     "marshal_euler_traj_units_invariant_grid/_graph, marshal_euler_traj_engine_units_grid/_graph): the Euler engine on the "
+                     "DECODED marshalled arrays set up in U (state xSI/sQty, step dt/sTime) follows the SI Euler trajectory / sQty for every "
+                     "number of steps, free and chemostated entries; two engine units systems agree after x sQty")
     tsample_stream(ctx)
     dxdtf_stream(ctx, ctx.n(60, 1500))
     npairs = ctx.n(70, 1500)
